@@ -265,6 +265,10 @@ def _core_job(args):
                 if st != 'volume' or sname != 'constant':
                     rs = ta.rsi(c, **kw)
                     B.eq('rsi', rs, r_rsi(x, p), case, clause='value-after-seed-decay', frm=p + Kw)
+                    # a simple average of a series that starts with undefined values (what composed indicators hand to sma / ma)
+                    rs_arr = np.asarray(rs, dtype=float)
+                    B.eq('sma', ta.sma(rs_arr, p, sequential=True), r_window(rs_arr, p, np.mean), dict(case, input='rsi series (NaN prefix)'), rel=1e-9)
+                    B.eq('ma', ta.ma(rs_arr, period=p, matype=0, sequential=True), r_window(rs_arr, p, np.mean), dict(case, input='rsi series (NaN prefix)'), clause='selector', rel=1e-9)
                     B.n += 1
                     v = rs[~np.isnan(rs)]
                     if len(v) and (v.min() < -1e-9 or v.max() > 100 + 1e-9):
